@@ -374,7 +374,10 @@ class SerialMpWriter(MpWriter):
 
     def add_document(self, **fields):
         self.tasks[self.pointer].add_document(**fields)
-        self.pointer = (self.pointer + 1) % len(self.tasks)
+        # Documents of one group must end up adjacent: stay on this sub-writer
+        # until the group is closed
+        if not self._grouping:
+            self.pointer = (self.pointer + 1) % len(self.tasks)
         self._added_sub = True
 
     def _commit(self, mergetype, optimize, merge):
